@@ -333,10 +333,26 @@ def prune(rc):
     rc.ob(f"virtual evidence: binary child with rows (likelihood, 1 - likelihood) on a copy of the model: {okv}")
     if not okv:
         rc.fail(v, v.node, "virtual evidence on X must become a binary child of X whose first row is the given likelihood, on a COPY of the model", construct="virtual evidence encoding")
-    q = repo.func("pgmpy/inference/ExactInference.py", "VariableElimination.query")
-    nq, bq = tm.find(q.node, "_VE = {'__' + _c.variables[0]: 0 for _c in virtual_evidence}")
-    if nq is None or not any(tm.is_(kwarg(c, "evidence"), "{**evidence, **_VE}", {"_VE": bq["_VE"]}) is not None for c in repo.calls_in(q) if call_name(c) == "query"):
-        rc.fail(q, q.node, "the virtual-evidence children must be observed in state 0 in addition to the user's evidence", construct="virtual evidence observed")
+    # the helper nodes are NEW nodes, one per virtual evidence: a name derived from the variable alone is shared by two evidences on one variable (add_cpds then
+    # replaces the first likelihood) and may be a node of the user's model; and the callers observe exactly the nodes the helper created
+    from .shared import fresh_helper_nodes
+    fresh_helper_nodes(rc, [v, repo.func("pgmpy/models/BayesianNetwork.py", "BayesianNetwork.simulate")])
+    returns_names = any(isinstance(r.value, ast.Name) for r in walk_no_nested(v.node) if isinstance(r, ast.Return) and r.value is not None)
+    for qn in ("VariableElimination.query", "VariableElimination.map_query", "BeliefPropagation.query", "BeliefPropagation.map_query"):
+        q = repo.func("pgmpy/inference/ExactInference.py", qn)
+        inner = qn.split(".")[1]
+        nq, bq = tm.find(q.node, "_VE = self._virtual_evidence(virtual_evidence)")
+        own = False
+        if nq is None:
+            nq, bq = tm.find(q.node, "_VE = {__K: 0 for _c in virtual_evidence}")
+            own = nq is not None
+        ok = nq is not None and any(tm.is_(kwarg(c, "evidence"), "{**evidence, **_VE}", {"_VE": bq["_VE"]}) is not None for c in repo.calls_in(q) if call_name(c) == inner)
+        rc.ob(f"{qn}: helper nodes observed at state 0 next to the user's evidence: {ok}; names {'recomputed by the caller' if own else 'taken from the helper'}")
+        if not ok:
+            rc.fail(q, q.node, f"{qn}: the virtual-evidence children must be observed in state 0 in addition to the user's evidence", construct=f"{qn} virtual evidence observed")
+        elif own and returns_names:
+            rc.fail(q, nq, f"{qn}: the names of the helper nodes are recomputed (`{norm(nq, 70)}`) although `_virtual_evidence` chooses fresh names and returns them: "
+                    "the observed nodes are not the ones that were added", construct=f"{qn} helper names recomputed")
     ck = repo.func(IB, "Inference._check_virtual_evidence")
     if len([n for n in walk_no_nested(ck.node) if isinstance(n, ast.Raise)]) < 4:
         rc.fail(ck, ck.node, "virtual evidence must be validated (type, single variable, in model, cardinality)", construct="virtual evidence checks")
@@ -350,6 +366,17 @@ def defuse(rc):
     _sh.defuse_rule(rc, _sh.anchor_files("C01"))
 
 MUTANTS = [
+    dict(kind="break", name="virtual-evidence-helper-name-from-variable-only", file=IB, expect="C01.prune",
+         old="            while new_var in bn.nodes():\n                new_var += \"_\"\n", new=""),
+    dict(kind="break", name="simulate-helper-name-from-variable-only", file="pgmpy/models/BayesianNetwork.py", expect="C01.prune",
+         old="                while new_var in model.nodes():\n                    new_var += \"_\"\n", new=""),
+    dict(kind="break", name="virtual-evidence-names-recomputed-by-caller", file=EI, expect="C01.prune",
+         old="            virt_evidence = self._virtual_evidence(virtual_evidence)\n            try:\n                return self.query(\n                    variables=variables,\n                    evidence={**evidence, **virt_evidence},\n                    virtual_evidence=None,\n                    elimination_order=elimination_order,\n                    joint=joint,",
+         new="            self._virtual_evidence(virtual_evidence)\n            virt_evidence = {\"__\" + str(cpd.variables[0]): 0 for cpd in virtual_evidence}\n            try:\n                return self.query(\n                    variables=variables,\n                    evidence={**evidence, **virt_evidence},\n                    virtual_evidence=None,\n                    elimination_order=elimination_order,\n                    joint=joint,"),
+    dict(kind="break", name="virtual-evidence-helper-name-without-str", file=IB, expect="C01.prune",
+         old='            new_var = "__" + str(var)', new='            new_var = "__" + var'),
+    dict(kind="twin", name="virtual-evidence-helper-fresh-by-if-and-index", file=IB,
+         old="            while new_var in bn.nodes():\n                new_var += \"_\"\n", new="            if new_var in bn.nodes():\n                new_var = f\"{new_var}_{len(bn.nodes())}\"\n"),
     dict(kind="break", name="completeness-check-behind-elif", file=EI, expect="C01.order",
          old="            # Step 1.3: Check if the elimination_order has all the variables that need to be eliminated.\n            if to_eliminate != set(elimination_order):",
          new="            # Step 1.3: Check if the elimination_order has all the variables that need to be eliminated.\n            elif to_eliminate != set(elimination_order):"),
@@ -367,8 +394,8 @@ MUTANTS = [
     dict(kind="break", name="result-without-model-names", file=EI, expect="C01.labels",
          old="                state_names={var: model_reduced.states[var] for var in variables},\n", new=""),
     dict(kind="break", name="map-query-no-overlap-check", file=EI, expect="C01.disjoint",
-         old="        if common_vars:\n            raise ValueError(\n                f\"Can't have the same variables in both `variables` and `evidence`. Found in both: {common_vars}\"\n            )\n\n        if isinstance(self.model, BayesianNetwork) and (virtual_evidence is not None):\n            orig_model = self.model\n            self._virtual_evidence(virtual_evidence)\n            virt_evidence = {\"__\" + cpd.variables[0]: 0 for cpd in virtual_evidence}\n            try:\n                return self.map_query(",
-         new="        if isinstance(self.model, BayesianNetwork) and (virtual_evidence is not None):\n            orig_model = self.model\n            self._virtual_evidence(virtual_evidence)\n            virt_evidence = {\"__\" + cpd.variables[0]: 0 for cpd in virtual_evidence}\n            try:\n                return self.map_query("),
+         old="        if common_vars:\n            raise ValueError(\n                f\"Can't have the same variables in both `variables` and `evidence`. Found in both: {common_vars}\"\n            )\n\n        if isinstance(self.model, BayesianNetwork) and (virtual_evidence is not None):\n            orig_model = self.model\n            virt_evidence = self._virtual_evidence(virtual_evidence)\n            try:\n                return self.map_query(",
+         new="        if isinstance(self.model, BayesianNetwork) and (virtual_evidence is not None):\n            orig_model = self.model\n            virt_evidence = self._virtual_evidence(virtual_evidence)\n            try:\n                return self.map_query("),
     dict(kind="break", name="heuristic-table-swapped", file=EI, expect="C01.order",
          old='                "minweight": MinWeight,\n                "minfill": MinFill,', new='                "minweight": MinFill,\n                "minfill": MinWeight,'),
     dict(kind="break", name="worklist-forgets-moral-graph", file=EO, expect="C01.order",
